@@ -123,6 +123,10 @@ def replay(scn):
                     dss = []
                     for o in objs:
                         d_ = A.Dataset()
+                        if o.ndim >= 2:
+                            # a first variable over the array's last dimension only: the Dataset then lists its dimensions in
+                            # another order than the variable under test does
+                            d_["u"] = A.DimArray(np.zeros(o.shape[-1]), axes=[o.axes[-1].copy()])
                         d_["v"] = o
                         dss.append(d_)
                     res = [r["v"] for r in A.da.align(dss, **kw)]
